@@ -128,3 +128,46 @@ impl Iv {
         Iv::point(Q::zero())
     }
 }
+
+impl Iv {
+    /// general interval product
+    pub fn mul(&self, o: &Iv) -> Iv {
+        let c = [&self.lo * &o.lo, &self.lo * &o.hi, &self.hi * &o.lo, &self.hi * &o.hi];
+        let mut lo = c[0].clone();
+        let mut hi = c[0].clone();
+        for x in &c[1..] {
+            if *x < lo {
+                lo = x.clone();
+            }
+            if *x > hi {
+                hi = x.clone();
+            }
+        }
+        Iv { lo, hi }
+    }
+    pub fn mul_q(&self, q: &Q) -> Iv {
+        self.mul(&Iv::point(q.clone()))
+    }
+    /// divide by a strictly positive interval
+    pub fn div_pos(&self, o: &Iv) -> Iv {
+        let inv = Iv { lo: Q::one() / &o.hi, hi: Q::one() / &o.lo };
+        self.mul(&inv)
+    }
+    /// result of one truncating fixed-point operation: the code's value lies within one ulp of
+    /// the exact result (two-sided, so that it does not encode the rounding direction)
+    pub fn trunc(&self) -> Iv {
+        self.widen(&ulp())
+    }
+    pub fn min_iv(&self, o: &Iv) -> Iv {
+        Iv { lo: q_min(self.lo.clone(), o.lo.clone()), hi: q_min(self.hi.clone(), o.hi.clone()) }
+    }
+    pub fn max_iv(&self, o: &Iv) -> Iv {
+        Iv { lo: q_max(self.lo.clone(), o.lo.clone()), hi: q_max(self.hi.clone(), o.hi.clone()) }
+    }
+    pub fn is_pos(&self) -> bool {
+        self.lo > Q::zero()
+    }
+    pub fn is_neg(&self) -> bool {
+        self.hi < Q::zero()
+    }
+}
